@@ -71,6 +71,14 @@ func b2s(b bool) string {
 	return "0"
 }
 
+// forkLine announces a non-dev fork schedule and height (the model takes the flags from the reset line)
+func (b *block) forkLine() string {
+	if b.cfg.sched == "" || b.cfg.sched == "dev" {
+		return ""
+	}
+	return "fork " + b.cfg.sched + " " + strconv.FormatUint(b.cfg.height, 10)
+}
+
 func (b *block) resetLine() string {
 	t := []string{"reset", b2s(b.cfg.p013), b2s(b.cfg.p007), b2s(b.cfg.cbn)}
 	for _, a := range b.accounts {
@@ -161,53 +169,54 @@ func (f *frame) mayBurnAll() bool {
 
 // need returns a gas amount that suffices for the frame to run its script whatever its children do.
 func (f *frame) need() uint64 {
-	n := uint64(40000)
+	k := func(c uint64) uint64 { return c / costDiv }
+	n := k(40000)
 	if f.end == "retbig" {
-		n += 200000
+		n += k(200000)
 	}
-	if f.end == "rethuge" {
-		n += 5000000 // memory expansion for MaxCodeSize+1 bytes
+	if f.end == "rethuge" || f.end == "retmax" {
+		n += k(5000000) // memory expansion for MaxCodeSize (+1) bytes
 	}
 	for i := len(f.acts) - 1; i >= 0; i-- {
 		a := f.acts[i]
 		switch a.kind {
 		case 'S':
-			n += cSimple
+			n += k(cSimple)
 		case 'T':
-			n += cTstore
+			n += k(cTstore)
 		case 'D':
-			n += cSuicide
+			n += k(cSuicide)
 		case 'L':
-			n += cLog
+			n += k(cLog)
 		case 'K', 'U', 'V', 'Q':
-			n += cStake
+			n += k(cStake)
 		case 'C', 'A':
 			g := a.body.need()
 			if precN(a.addr) != 0 {
-				g = precGasOperand(a) + 600000 // + memory for the input
+				g = precGasOperand(a) + k(600000) // + memory for the input
 			}
-			c := uint64(cCall)
+			c := k(cCall)
 			if a.kind == 'A' {
-				c += cAuth
+				c += k(cAuth)
 			}
 			n = c + g + g/32 + n
 		case 'N':
 			g := a.body.need()
 			lo := g + g/32
 			if a.body.mayBurnAll() || a.two { // a CREATE2 may collide, and a collision takes all gas
-				if 64*(n+cSimple) > lo {
-					lo = 64 * (n + cSimple)
+				if 64*(n+k(cSimple)) > lo {
+					lo = 64 * (n + k(cSimple))
 				}
 			} else if g+n > lo {
 				lo = g + n
 			}
-			n = cCreate + lo
+			n = k(cCreate) + lo
 		}
 		if n > 1<<50 {
 			n = 1 << 50
 		}
 	}
-	return n + cBase
+	return n + k(cBase)
 }
 
 // ---------------------------------------------------------------- generator
@@ -230,7 +239,10 @@ type gen struct {
 	nextID    int
 	withAuth  bool
 	withStake bool
-	authNonce int // predicted nonce of authority b30
+	flags     forkFlags
+	pre002    bool // the searcher also visits heights before Proposal002 (balances are not journaled there)
+	forceDev  bool // dev schedule, every proposal on (blocks that are executed concurrently share the global fork configuration)
+	authNonce int  // predicted nonce of authority b30
 }
 
 func newGen(r *hx.Rng, st *stats) *gen { return &gen{r: r, st: st} }
@@ -241,16 +253,45 @@ var valuePool = []int{0, 0, 0, 1, 1, 2, 7, 49, 50, 51, 999, 1000, 1001, 5000}
 func (g *gen) block() *block {
 	r := g.r
 	cfg := blockCfg{p013: true, p007: true, cbn: true}
-	switch r.Intn(8) {
-	case 0:
-		cfg.p013 = false
-	case 1:
-		cfg.p007 = false
-	case 2:
-		cfg.p007, cfg.cbn = false, false
-	case 3:
-		cfg.p013, cfg.p007 = false, false
+	if g.forceDev {
+		// nothing to choose
+	} else if r.Chance(9, 20) {
+		// a real fork schedule (mainnet / robin) at a height on either side of a proposal the C12 path reads
+		cfg.sched = []string{"mainnet", "robin"}[r.Intn(2)]
+		sc := schedules[cfg.sched]
+		marks := []uint64{sc.Proposal002Block, sc.Proposal006Block, sc.Proposal007Block, sc.Proposal013Block, sc.Proposal014Block,
+			sc.Proposal015Block, sc.Proposal022Block, sc.Proposal026Block, sc.Proposal027Block}
+		for {
+			m := marks[r.Intn(len(marks))]
+			if m == 0 || m > 1<<60 {
+				continue
+			}
+			cfg.height = m + uint64(r.Pick(0, 0, 1, 1, 2, 1000)) - 1
+			if r.Chance(1, 5) {
+				cfg.height = sc.Proposal002Block + r.U64()%(sc.Proposal027Block+100000-sc.Proposal002Block)
+			}
+			if g.pre002 && r.Chance(1, 6) {
+				cfg.height = sc.Proposal002Block - 1 - uint64(r.Intn(1000))
+			}
+			f := setSchedule(cfg)
+			if f.p002 || g.pre002 {
+				cfg.p013, cfg.p007, cfg.cbn = f.p013, f.p007, f.cbn
+				break
+			}
+		}
+	} else {
+		switch r.Intn(8) {
+		case 0:
+			cfg.p013 = false
+		case 1:
+			cfg.p007 = false
+		case 2:
+			cfg.p007, cfg.cbn = false, false
+		case 3:
+			cfg.p013, cfg.p007 = false, false
+		}
 	}
+	g.flags = setSchedule(cfg)
 	b := &block{cfg: cfg, salts: map[int]*frame{}}
 	b.accounts = []acct{
 		{"e", 10, 1000000}, {"e", 11, r.Pick(0, 3, 50)},
@@ -258,7 +299,7 @@ func (g *gen) block() *block {
 		{"e", 30, r.Pick(0, 5)},
 	}
 	b.accounts = append(b.accounts, precAccounts()...)
-	if r.Chance(1, 3) {
+	if cfg.sched == "" && !g.forceDev && r.Chance(1, 3) {
 		// this block goes through the unmodified VMExecutor.Execute: one origin (the loop sorts by source),
 		// Proposal007 on, enough balance for gasLimit*gasPrice
 		b.real = true
@@ -266,9 +307,11 @@ func (g *gen) block() *block {
 		b.accounts[0].balance = realOriginBalance
 	}
 	g.blk = b
-	g.withAuth = r.Chance(1, 2)
+	g.withAuth = g.flags.p014 && r.Chance(1, 2) // AUTH / AUTHCALL / STAKE family exist from Proposal014
 	g.authNonce = 0
-	if !g.withAuth && r.Chance(1, 2) {
+	g.withStake = false
+	// (before Proposal012 the refund height of UNSTAKE is computed from the group chain, which this harness does not boot)
+	if g.flags.p014 && g.flags.p012 && !g.withAuth && r.Chance(1, 2) {
 		// b23 is a contract registered as a validator miner account (stake 400 RPG); 2 RPG and a bit are left on it
 		g.withStake = true
 		for i := range b.accounts {
@@ -374,7 +417,7 @@ func (g *gen) tx(i int) *txn {
 }
 
 var endsPlain = []string{"stop", "stop", "stop", "stop", "retcode", "revert", "revert", "invalid", "oog"}
-var endsCreate = []string{"retcode", "retcode", "retcode", "retcode", "stop", "revert", "revert", "invalid", "oog", "retbig", "retbig", "rethuge"}
+var endsCreate = []string{"retcode", "retcode", "retcode", "retcode", "stop", "revert", "revert", "invalid", "oog", "retbig", "retbig", "retmax", "rethuge"}
 
 // frame generates a frame body. self is the context address name ("dyn" inside CREATE init code),
 // static says whether an enclosing frame is a STATICCALL, inCreate whether this is init code.
@@ -401,6 +444,9 @@ func (g *gen) frame(depth, maxDepth int, self string, static, inCreate bool) *fr
 		c := &act{kind: 'C', id: g.id(), ck: ck, addr: host}
 		c.body = g.frame(depth+1, maxDepth, cself, true, false)
 		w := []*act{{kind: 'S', k: r.Intn(4), v: 1 + r.Intn(3)}, {kind: 'L', k: r.Intn(5), v: r.Intn(200)}, {kind: 'T', k: r.Intn(3), v: 1 + r.Intn(8)}}[r.Intn(3)]
+		if w.kind == 'T' && !g.flags.p022 {
+			w = &act{kind: 'S', k: 1, v: 2}
+		}
 		c.body.acts = append([]*act{w}, c.body.acts...)
 		g.st.kinds["C"+ck]++
 		f.acts = append(f.acts, c)
@@ -418,7 +464,7 @@ func (g *gen) frame(depth, maxDepth int, self string, static, inCreate bool) *fr
 			}
 			a = &act{kind: 'S', k: r.Intn(4), v: r.Pick(0, 1, 2, 3, 255, 65536)}
 		case c < 32:
-			if pure {
+			if pure || !g.flags.p022 { // TSTORE exists from Proposal022
 				continue
 			}
 			a = &act{kind: 'T', k: r.Intn(3), v: r.Pick(0, 1, 2, 9)}
